@@ -237,9 +237,9 @@ func (w *c04World) interp(needBig bool) *twin.Interp {
 }
 
 type c04Got struct {
-	Rejected string      // non-empty: the interpreter refused the source (panic text)
-	Untyped  bool        // result is an untyped constant
-	Kind     string      // untyped kind
+	Rejected string // non-empty: the interpreter refused the source (panic text)
+	Untyped  bool   // result is an untyped constant
+	Kind     string // untyped kind
 	Val      constant.Value
 	Value    interface{} // typed result
 	Type     string
